@@ -11,7 +11,7 @@ against reference decompressors).
 "Terminates" is expressed with the models' explicit fuel: there is an amount of fuel from which on the
 result no longer depends on the fuel and is not "still running".
 -/
-import Sqfs.Proofs.Xfrm
+import Sqfs.Proofs.XfrmWrap
 namespace Sqfs.C15
 open Sqfs.Xfrm Sqfs.Xfrm.Spec
 
@@ -142,6 +142,41 @@ theorem truncated_is_error (hD : DecContract C Dec) {bufsz : Nat} (hb : 0 < bufs
       · have := hp.length_le
         simp only [List.length_nil, Nat.zero_add] at h
         omega
+
+/--
+**process_data_meets_contract (compressing side; gzip.c, xz.c, bzip2.c with the patch).**  For every library stream
+object `L` that follows the documented zlib / liblzma / libbz2 calling convention for compression
+(`LibEncContract`: answers `OK`/`STREAM_END`/`BUF_ERROR`, `OK` means at least one byte consumed or produced, `STREAM_END`
+only to `FINISH` after all input, what was produced for a member decodes to what was consumed), the backend's
+`process_data` loop (`wrapProcess`, i.e. `while ((in_size > 0 || flush_mode == FLUSH_FULL) && out_size > 0)` with the
+accounting and the mapping of return codes) always leaves within `in_size + out_size + 2` rounds and, as a codec, meets
+`EncContract` — so `ostream_transparent` and `ostream_flush_terminates` apply to it.
+
+`process_data_meets_contract_partial`: the statement for the **decompressing** side (`LibDecContract ⇒ DecContract`,
+including the end-of-input rule `total_in == 0 ? END : ERROR`) and for `zstd.c` (`zstdBody`, the `pending` flag) is not
+proved; those loops are modelled, instantiated (`Toy.decLib`, `Toy.encZLib`, `Toy.decZLib`) and compared with the C text on
+every run by harness (a').  The unpatched loop provably does *not* meet the contract (`Sqfs/Witness/C15.lean`).
+-/
+theorem process_data_meets_contract_partial {τ : Type} {L : Lib τ} {b : Backend} (hL : LibEncContract L b Dec) :
+    (∀ {s : τ} {x y : Bytes} {fin : Bool} (inp : Bytes) (room : Nat) (fl : Flush), hL.R s x y fin → Proto fin fl inp →
+        (wrapProcess L b true s inp room fl).isSome = true) ∧
+    Nonempty (EncContract (wrapCodec L b true) Dec) := by
+  refine ⟨?_, ⟨wrapEncContract hL⟩⟩
+  intro s x y fin inp room fl hR hP
+  obtain ⟨r, hr, _⟩ := wrapProcess_enc_spec hL inp room fl hR hP
+  simp [hr]
+
+/-- hence: `sqfs2tar -c gzip|xz|bzip2`'s output stream is transparent for every library meeting the convention -/
+theorem backend_ostream_transparent {τ : Type} {L : Lib τ} {b : Backend} (hL : LibEncContract L b Dec) {bufsz : Nat}
+    (hb : 0 < bufsz) (chunks : List Bytes) :
+    ∃ fuel st, (∀ f, fuel ≤ f → oRun (wrapCodec L b true) bufsz f (oInit (wrapCodec L b true))
+        (chunks.map OOp.append ++ [OOp.flush]) = some (.ok st)) ∧
+      st.inbuf = [] ∧ (chunks.flatten ≠ [] → Dec st.sink = some chunks.flatten) ∧ (chunks.flatten = [] → st.sink = []) :=
+  ostream_transparent_single (wrapEncContract hL) hb chunks
+
+/-- Non-vacuity of the library-level convention: the toy library meets it under each backend's return-code convention. -/
+theorem toy_library_meets_convention (P : Toy.Params) (b : Backend) :
+    Nonempty (LibEncContract (Toy.encLib P b) b Toy.decode) := ⟨Toy.encLibContract P b⟩
 
 /-- Non-vacuity: the toy codec (internal queue, limited intake and output granularity, any knob setting) meets
 the encoder contract with the toy format's one-shot decoder. -/
